@@ -126,9 +126,15 @@ impl Item {
             _ => Item::Text,
         }
     }
+    /// Thorough tier: all 9 kinds.  Quick tier: the 4 kinds C08 is about - the positive
+    /// indications `<ok/>` and `<data>` and the two rpc-error severities; comments and the
+    /// unexpected-content kinds (`<ok></ok>`, foreign `<ok/>`, other element, stray text) take the
+    /// readers' skip / catch-all arms and more than double the formula.
     pub fn any() -> Self {
         let c: u8 = kani::any();
         kani::assume(c < ITEM_KINDS);
+        #[cfg(not(feature = "verif_deep"))]
+        kani::assume(c == 0 || c == 2 || c == 3 || c == 7);
         Self::from_code(c)
     }
     pub fn is_error_severity_error(self) -> bool {
